@@ -8,23 +8,25 @@ from pyvc.values import KInt, KReal, KBool, KDyn, KFn, KStr, KDict, KList, KRef,
 P = 'kfac.base_preconditioner:BaseKFACPreconditioner'
 NUMBER = lambda e: f'(isinstance({e}, (int, float)) and not isinstance({e}, bool))'    # noqa: E731
 
-FIELD_OK = lambda l, f: (f'({l}.{f} is None or is_tensor({l}.{f}) or is_future({l}.{f})) and '                 # noqa: E731
-                         f'implies(is_future({l}.{f}), {l}.{f}.will_be is not None)')
-COMMON = (
+# immutable wiring of a layer (never assigned after construction: the arrays holding these fields are not
+# touched by step(), so the requires clause below remains available at every program point)
+CONFIG = (
     'l is not None and l.module is not None and l.module.module is not None and l.module.module.weight is not None '
-    'and l.module.module.bias is not l.module.module.weight and l.module.module.weight.grad is not None '
-    'and implies(l.module.module.bias is not None, l.module.module.bias.grad is not None) '
+    'and l.module.module.bias is not l.module.module.weight '
     'and l.tdc is not None and l.symmetric_factors '
-    'and (l.allreduce_method is AllreduceMethod.ALLREDUCE or l.allreduce_method is AllreduceMethod.ALLREDUCE_BUCKETED) '
-    'and ' + ' and '.join(FIELD_OK('l', f) for f in ('_a_factor', '_g_factor', '_grad')) + ' '
-    'and implies(l._a_batch is not None, len(l._a_batch.shape) == 2) and implies(l._g_batch is not None, len(l._g_batch.shape) == 2) '
+    'and (l.allreduce_method is AllreduceMethod.ALLREDUCE or l.allreduce_method is AllreduceMethod.ALLREDUCE_BUCKETED)')
+spec_def('layer_config_ok', ['l'], CONFIG)
+# mutable part: presence of the module gradients and shapes of what the layer currently holds
+MUT = (
+    'l.module.module.weight.grad is not None and implies(l.module.module.bias is not None, l.module.module.bias.grad is not None) '
+    'and implies(l._a_batch is not None, is_square(l._a_batch.shape)) and implies(l._g_batch is not None, is_square(l._g_batch.shape)) '
     'and implies(l._a_factor is not None, is_square(awaited(l._a_factor).shape)) '
     'and implies(l._g_factor is not None, is_square(awaited(l._g_factor).shape)) '
     'and implies(l._grad is not None, len(awaited(l._grad).shape) == 2 and awaited(l._grad) is not l.module.module.weight.grad '
     '            and implies(l.module.module.bias is not None, awaited(l._grad) is not l.module.module.bias.grad))')
-spec_def('inv_layer_ok', ['l'], COMMON + ' and ' + ' and '.join(FIELD_OK('l', f) for f in ('_a_inv', '_g_inv')) +
+spec_def('inv_layer_mut', ['l'], MUT +
          ' and implies(l._a_inv is not None, is_square(awaited(l._a_inv).shape)) and implies(l._g_inv is not None, is_square(awaited(l._g_inv).shape))')
-spec_def('eig_layer_ok', ['l'], COMMON + ' and ' + ' and '.join(FIELD_OK('l', f) for f in ('_qa', '_qg', '_da', '_dg', '_dgda')) +
+spec_def('eig_layer_mut', ['l'], MUT +
          ' and implies(l._da is not None, len(awaited(l._da).shape) == 1)'
          ' and implies(l._qa is not None and l._da is not None, awaited(l._qa) is not awaited(l._da))'
          ' and implies(l._qg is not None and l._dg is not None, awaited(l._qg) is not awaited(l._dg))'
@@ -37,18 +39,19 @@ SELF_OK = [('assignment_present', 'self._assignment is not None and self._tdc is
             'isinstance(self.factor_update_steps, int) and self.factor_update_steps > 0 and '
             'isinstance(self.inv_update_steps, int) and self.inv_update_steps > 0')]
 
-for variant, cls, ok in (('inverse', 'KFACInverseLayer', 'inv_layer_ok'), ('eigen', 'KFACEigenLayer', 'eig_layer_ok')):
-    LAYERS_OK = f'all({ok}(self._layers[m][1]) and wa_layer_ok(self._assignment, self._layers[m][0]) for m in self._layers)'
+for variant, cls, mut in (('inverse', 'KFACInverseLayer', 'inv_layer_mut'), ('eigen', 'KFACEigenLayer', 'eig_layer_mut')):
+    CONFIG_OK = 'all(layer_config_ok(self._layers[m][1]) and wa_layer_ok(self._assignment, self._layers[m][0]) for m in self._layers)'
+    MUT_OK = f'all({mut}(self._layers[m][1]) for m in self._layers)'
     STABLE = ('self._layers == old(self._layers) and self._assignment is old(self._assignment) and self._tdc is old(self._tdc) '
               'and self._steps == old(self._steps) and self._update_factors_in_hook == old(self._update_factors_in_hook) '
               'and same(self._damping, old(self._damping)) and same(self._factor_decay, old(self._factor_decay)) '
               'and same(self._kl_clip, old(self._kl_clip)) and same(self._lr, old(self._lr)) '
               'and same(self._factor_update_steps, old(self._factor_update_steps)) and same(self._inv_update_steps, old(self._inv_update_steps))')
-    INV = [('layers_wellformed', LAYERS_OK), ('own_state_stable', STABLE)]
+    INV = [('layer_shapes_and_gradients', MUT_OK), ('own_state_stable', STABLE)]
     contract(
         f'{P}.step#{variant}', props=['C05', 'C03', 'C10', 'C13', 'C07'],
         class_map={'KFACBaseLayer': cls},
-        requires=SELF_OK + [('layers_wellformed', LAYERS_OK)],
+        requires=SELF_OK + [('layers_configured', CONFIG_OK), ('layer_shapes_and_gradients', MUT_OK)],
         may_raise=['RuntimeError', 'AssertionError', 'NonSquareTensorError'],
         ensures=[
             ('step_count_grows_by_one', 'self._steps == old(self._steps) + 1'),
@@ -62,8 +65,7 @@ for variant, cls, ok in (('inverse', 'KFACInverseLayer', 'inv_layer_ok'), ('eige
         ],
         loops={str(i): dict(index='i', invariants=INV + extra) for i, extra in enumerate([
             [], [], [],
-            [('consumed_so_far', 'all(flayer(self, m)._grad is None for m in range(len(self._layers) - i, len(self._layers)))'),
-             ('distinct_layers', 'True')],
+            [('consumed_so_far', 'all(flayer(self, m)._grad is None for m in range(len(self._layers) - i, len(self._layers)))')],
         ])},
         modifies=['self._steps', 'self._mini_steps', '*._a_factor', '*._g_factor', '*._a_batch', '*._g_batch', '*._grad',
                   '*._a_inv', '*._g_inv', '*._qa', '*._qg', '*._da', '*._dg', '*._dgda', '*.grad', '*.val', '*.resolved',
